@@ -23,7 +23,8 @@ trial count, preamble and every per-factor sustain count by the same factor; eve
 (init_within_block) also scales it in sustain_within_block; (sibling rule) every constraint attribute that is
 measured in trials (k of the _KInARow family, trials of MinimumTrials) is multiplied by the sustain count -- if one
 member of a family scales its count, all members with the same attribute do; (pair) the Sustain encoder and checker
-agree (C07 pair); (disjoint) a factor cannot be crossed in both blocks.
+agree (C07 pair); (disjoint) a factor cannot be crossed in both blocks.  The length clause (C16) and the window scoping
+of the inner block's constraints (C26) are evaluated here as well, under their own rule names.
 """
 NOT_DECIDED = "the group structure of the returned sequences and associativity of nesting (runtime facts)."
 
